@@ -83,7 +83,7 @@ func init() {
 		Rule: "quick enumerates kind(7) x env{unset, empty, valid, invalid, mixed-case, equal to default, equal to CLI value}(7) x CLI{absent, --n=v, --n v, flag/bare}(4) x default(3) x pointer/Var(2) completely and adds hostile env/CLI texts; thorough adds more hostile texts, aliases and sibling options. " +
 			"distinct = (kind, env class, cli class, default, texts); non-trivial = the environment variable or the command line actually decides the value. Unasserted (statement silent): Called when the env text is invalid; the value of a bare optional-value option on the CLI while a valid env text is set.",
 		Assumptions: []string{"os.Setenv is called by the single-threaded worker before the definition call (the library reads the variable at definition)"},
-		Cases:       func(tier string) int { return tierN(tier, c12Grid+8000, c12Grid+3000000) },
+		Cases:       func(tier string) int { return tierN(tier, c12Grid+40000, c12Grid+3000000) },
 		Run: func(seed uint64, idx int, tier string) *fw.Result {
 			r := CaseRng(seed, "C12", idx)
 			g := idx % c12Grid
